@@ -515,24 +515,27 @@ pub fn build_send<'a>(kind: MsgKind, tid: usize, seal: Sealing, payload: u16) ->
         let _ = b.add_raw_attribute(RawAttribute::new(AttributeType::new(0x7f51), &vec![0x51u8; 30_001]).into_owned());
     }
     let lc = imp::to_impl_creds(&creds(3));
+    // "the request carried an integrity attribute" is what the calls that add one answered, not what
+    // the builder's own bookkeeping (`has_attribute`) says afterwards: the agent may well consult that
+    // bookkeeping, the model must not
+    let mut sealed = false;
     match seal {
         Sealing::None => {}
         Sealing::Sha1 => {
-            let _ = b.add_message_integrity(&lc, IntegrityAlgorithm::Sha1);
+            sealed |= b.add_message_integrity(&lc, IntegrityAlgorithm::Sha1).is_ok();
         }
         Sealing::Sha256 => {
-            let _ = b.add_message_integrity(&lc, IntegrityAlgorithm::Sha256);
+            sealed |= b.add_message_integrity(&lc, IntegrityAlgorithm::Sha256).is_ok();
         }
         Sealing::Both => {
-            let _ = b.add_message_integrity(&lc, IntegrityAlgorithm::Sha1);
-            let _ = b.add_message_integrity(&lc, IntegrityAlgorithm::Sha256);
+            sealed |= b.add_message_integrity(&lc, IntegrityAlgorithm::Sha1).is_ok();
+            sealed |= b.add_message_integrity(&lc, IntegrityAlgorithm::Sha256).is_ok();
         }
     }
     if payload % 4 == 3 {
         let _ = b.add_fingerprint();
     }
     let bytes = b.build();
-    let sealed = b.has_attribute(AttributeType::new(MI)) || b.has_attribute(AttributeType::new(MI256));
     (b, bytes, sealed)
 }
 
@@ -1885,7 +1888,22 @@ impl<'c> Eng<'c> {
 }
 
 /// Execute `h` on a fresh agent in lock-step with the model.
+impl crate::ctx::WitnessSrc for History {
+    fn witness(&self) -> Value {
+        self.to_json()
+    }
+}
+
+/// One history against a fresh agent, in lock-step with the model.  The whole run is a watchdog
+/// region: an agent call that does not return is attributed to the history.
 pub fn run_history(ctx: &mut Ctx, h: &History, cfg: &RunCfg) -> RunResult {
+    let opened = ctx.wd.enter_case_src("agent-history", h);
+    let r = run_history_inner(ctx, h, cfg);
+    ctx.wd.leave_case(opened);
+    r
+}
+
+fn run_history_inner(ctx: &mut Ctx, h: &History, cfg: &RunCfg) -> RunResult {
     // the impure attribute counts from zero in every run (replays of one history see the same values)
     COUNTING_VALUE.with(|c| c.set(0));
     let transport = if h.tcp { TransportType::Tcp } else { TransportType::Udp };
@@ -2051,6 +2069,17 @@ pub fn gen_poll(rng: &mut Rng) -> Op {
 }
 
 /// long random history over `ntid` transaction ids
+/// a destination: mostly one of the core addresses, one time in six a special one (wildcards, port 0,
+/// multicast, IPv4-mapped, zoned / flow-labelled link-local ...): "the destination given at send time"
+/// is the whole socket address
+pub fn gen_dest(rng: &mut Rng) -> u8 {
+    if rng.chance(1, 6) {
+        8 + rng.below(24) as u8
+    } else {
+        rng.below(NCORE as u64) as u8
+    }
+}
+
 pub fn gen_history(rng: &mut Rng, len: usize, ntid: u8, emphasis: &str) -> History {
     let mut ops = vec![];
     let tcp = rng.chance(1, 3);
@@ -2059,9 +2088,18 @@ pub fn gen_history(rng: &mut Rng, len: usize, ntid: u8, emphasis: &str) -> Histo
         let w = rng.below(100);
         let op = match emphasis {
             "timing" => match w {
-                0..=14 => Op::Send { kind: MsgKind::Request, tid, dest: rng.below(NCORE as u64) as u8, seal: Sealing::None, payload: rng.below(600) as u16 },
+                0..=14 => Op::Send { kind: MsgKind::Request, tid, dest: gen_dest(rng), seal: *rng.pick(&[Sealing::None, Sealing::None, Sealing::None, Sealing::Sha1, Sealing::Both]), payload: rng.below(600) as u16 },
                 15..=29 => gen_configure(rng, tid),
-                30..=84 => gen_poll(rng),
+                // calls that have nothing to do with timing
+                30..=33 => match rng.below(6) {
+                    0 => Op::SetLocal(rng.below(4) as u8),
+                    1 => Op::SetRemote(rng.below(3) as u8),
+                    2 => Op::Incoming { request: rng.chance(1, 2), tid, from: rng.below(NCORE as u64) as u8 },
+                    3 => Op::SendData { dest: rng.below(NCORE as u64) as u8, len: rng.below(600) as u16 },
+                    4 => Op::Send { kind: *rng.pick(&[MsgKind::Indication, MsgKind::Success, MsgKind::Error]), tid, dest: gen_dest(rng), seal: Sealing::None, payload: rng.below(300) as u16 },
+                    _ => Op::Response { tid, from: rng.below(NCORE as u64) as u8, error: rng.chance(1, 2), seal: *rng.pick(&[RespSeal::CorruptSha1(0), RespSeal::Sha1(2), RespSeal::OddLen(0, 2)]), fp: false },
+                },
+                34..=84 => gen_poll(rng),
                 85..=88 => Op::CancelRetrans(tid),
                 89..=90 => Op::Cancel(tid),
                 91..=94 => Op::Response { tid, from: rng.below(NCORE as u64) as u8, error: false, seal: RespSeal::Unsigned, fp: false },
@@ -2077,7 +2115,7 @@ pub fn gen_history(rng: &mut Rng, len: usize, ntid: u8, emphasis: &str) -> Histo
                 }
             },
             "auth" => match w {
-                0..=17 => Op::Send { kind: MsgKind::Request, tid, dest: rng.below(NCORE as u64) as u8, seal: *rng.pick(&[Sealing::None, Sealing::Sha1, Sealing::Sha256, Sealing::Both, Sealing::Sha1]), payload: rng.below(600) as u16 },
+                0..=17 => Op::Send { kind: MsgKind::Request, tid, dest: gen_dest(rng), seal: *rng.pick(&[Sealing::None, Sealing::Sha1, Sealing::Sha256, Sealing::Both, Sealing::Sha1]), payload: rng.below(600) as u16 },
                 18..=57 => Op::Response { tid, from: rng.below(NCORE as u64) as u8, error: rng.chance(1, 4), seal: gen_resp_seal(rng), fp: rng.chance(1, 3) },
                 58..=63 => Op::SetRemote(rng.below(3) as u8),
                 64..=65 => Op::SetLocal(rng.below(3) as u8),
@@ -2092,7 +2130,7 @@ pub fn gen_history(rng: &mut Rng, len: usize, ntid: u8, emphasis: &str) -> Histo
                 0..=17 => Op::Send {
                     kind: *rng.pick(&[MsgKind::Request, MsgKind::Request, MsgKind::Request, MsgKind::Request, MsgKind::Indication, MsgKind::Success, MsgKind::Error]),
                     tid,
-                    dest: rng.below(NCORE as u64) as u8,
+                    dest: gen_dest(rng),
                     seal: *rng.pick(&[Sealing::None, Sealing::None, Sealing::Sha1, Sealing::Sha256, Sealing::Both]),
                     payload: rng.below(2000) as u16,
                 },
